@@ -13,17 +13,17 @@ PLAN = {
     "C02": dict(mc_q=[("single", 3, 4), ("singlecancel", 2, 4), ("flowretry", 1, 5), ("zerobudget", 1, 4)],
                 mc_t=[("single", 6, 4), ("singlecancel", 3, 4), ("flowerr", 2, 4), ("flowretry", 1, 6), ("zerobudget", 1, 5)],
                 gen_q=("single,plain,err,flowretry,zerobudget", 130), gen_t=("single,plain,err,flowretry,zerobudget", 3500)),
-    "C03": dict(mc_q=[("flow2", 1, 4), ("rerun", 1, 4), ("flow2empty", 1, 3), ("dynwire", 1, 4), ("emptyconn", 1, 4)],
-                mc_t=[("flow2", 1, 6), ("rerun", 1, 5), ("flow2empty", 1, 5), ("nest", 1, 3), ("dynwire", 1, 5), ("emptyconn", 1, 6)],
-                gen_q=("plain,nest,dynwire,zs,recur,longloop,hugeloop", 130), gen_t=("plain,nest,err,dynwire,zs,recur,longloop,hugeloop", 2600)),
+    "C03": dict(mc_q=[("flow2", 1, 4), ("rerun", 1, 4), ("flow2empty", 1, 3), ("dynwire", 1, 4), ("emptyconn", 1, 4), ("selfnest", 1, 4)],
+                mc_t=[("flow2", 1, 6), ("rerun", 1, 5), ("flow2empty", 1, 5), ("nest", 1, 3), ("dynwire", 1, 5), ("emptyconn", 1, 6), ("selfnest", 1, 5)],
+                gen_q=("plain,nest,dynwire,zs,recur,longloop,hugeloop,longchain", 130), gen_t=("plain,nest,err,dynwire,zs,recur,longloop,hugeloop,longchain", 2600)),
     "C04": dict(mc_q=[("flowerr", 2, 3), ("nesterr", 2, 3), ("nilstart", 1, 3), ("flowbatch", 2, 4)],
                 mc_t=[("flowerr", 2, 5), ("nesterr", 2, 4), ("nilstart", 1, 4), ("single", 4, 4), ("flowbatch", 2, 5)],
                 gen_q=("faultenum,err,hugeloop", 60), gen_t=("faultenum,err,nilstart,hugeloop", 800)),
     "C05": dict(mc_q=[("singlecancel", 2, 4), ("flowcancel", 2, 3), ("flowbatch", 2, 4)],
                 mc_t=[("singlecancel", 3, 4), ("flowcancel", 2, 4), ("flowbatch", 2, 5)],
                 gen_q=("cancelenum,cancel,zerocancel", 60), gen_t=("cancelenum,cancel,zerocancel", 800)),
-    "C10": dict(mc_q=[("nestsmall", 1, 4), ("nesterr", 2, 3), ("flowretry", 1, 5)],
-                mc_t=[("nest", 1, 5), ("nest3", 1, 5), ("nesterr", 2, 4), ("flowretry", 1, 6)],
+    "C10": dict(mc_q=[("nestsmall", 1, 4), ("nesterr", 2, 3), ("flowretry", 1, 5), ("selfnest", 1, 4)],
+                mc_t=[("nest", 1, 5), ("nest3", 1, 5), ("nesterr", 2, 4), ("flowretry", 1, 6), ("selfnest", 1, 5)],
                 gen_q=("nest,flowretry,recur,longloop,hugeloop", 180), gen_t=("nest,err,flowretry,recur,longloop,hugeloop", 3000)),
     # C11 through a flow: flows whose steps are batch nodes, cancelled from inside an item
     "C11": dict(mc_q=[("batchloop", 2, 3), ("flowbatch", 2, 3)],
